@@ -4,11 +4,11 @@ VERIF = os.path.dirname(os.path.dirname(os.path.abspath(__file__)))
 props = [json.loads(l) for l in open(os.path.join(VERIF, 'properties.jsonl')) if l.strip()]
 
 CLAIMED = {
- 'C01': ('7 C01', 'Coq theorems C01_layout / C01_reader_complete / C01_vr_bound over Model/Segment.v for all record lists, body lengths and accepted record lengths; tied to the code by byte-exact K-seg/K-file correspondence and by the strict framing reader applied to every implementation output',
+ 'C01': ('7 C01', 'Coq theorems C01_layout / C01_reader_complete / C01_checker (check_layout <-> Layout) / C01_vr_bound over Model/Segment.v for all record lists, body lengths and accepted record lengths, and C01_api_layout: after ANY sequence of API calls and writes the file returned by the modelled DLISFile.write has the layout (invariants Inv_shape/Inv_struct by induction over operations, every encoder yields bytes); tied to the code by byte-exact K-seg/K-file correspondence and by the strict framing reader applied to every implementation output',
          'proof in Coq (induction over the splitting loop and the record list) + byte-exact correspondence + verified strict reader as oracle'),
- 'C02': ('7 C02', 'Coq theorems C02_roundtrip (read_records (write_file recs) = non-empty recs) and C02_bracket (soundness of reassembly for the declarative bracket discipline); tie: K-seg/K-file correspondence, lr-tap bodies vs records read back from real files',
+ 'C02': ('7 C02', 'Coq theorems C02_roundtrip (read_records (write_file recs) = non-empty recs), C02_bracket (soundness of reassembly for the declarative bracket discipline) and C02_api_bracketed (the same for every file the modelled API writes); tie: K-seg/K-file correspondence, lr-tap bodies vs records read back from real files',
          'proof in Coq (parser/printer inversion, reassembly induction) + correspondence + lr-tap'),
- 'C04': ('7 C04', 'Coq theorems C04_grammar (dec_set (enc_set s) succeeds with nothing left over and matches the set: type, name, template labels, per object identity and per attribute ABSATR or count/code/units/values), C04_attribute, C04_value over Model/Eflr.v and the strict component reader Model/EflrReader.v, by structural induction over objects and attributes; tie: K-attr correspondence (Python-side attribute state -> model encoder == tapped EFLR body) and strict reader judgement of every tapped EFLR body, over random specifications of all 22 object types',
+ 'C04': ('7 C04', 'Coq theorems C04_grammar (dec_set (enc_set s) succeeds with nothing left over and matches the set: type, name, template labels, per object identity and per attribute ABSATR or count/code/units/values), C04_attribute, C04_value, C04_reachable_wf (the count-consistency hypothesis holds in every reachable state) and C04_api_records_decode (every explicitly formatted record of every file the modelled API writes, FILE-HEADER included, decodes under the grammar) over Model/Eflr.v and the strict component reader Model/EflrReader.v, by structural induction over objects and attributes; tie: K-attr correspondence (Python-side attribute state -> model encoder == tapped EFLR body) and strict reader judgement of every tapped EFLR body, over random specifications of all 22 object types',
          'proof in Coq (parser/printer inversion for the component grammar) + byte-exact correspondence + verified strict component reader as oracle'),
  'C03': ('7 C03', 'Coq theorems C03_decode (dec_fdata (fdata_body o n slots) = (o, n, slots), nothing left), C03_rows / C03_count (one type-0 IFLR per row, numbered in input order, never dropped), C03_file (C02 instantiated); values are bit patterns; tie: frames over 8 dtypes x byte order x width x layout x cast x source kind, every frame-data record read back by the strict reader decoded with the declared layout and compared bit for bit with numpy-computed expectations, and with the model encoder',
          'proof in Coq (decoder inversion by induction over slots and elements) + reader judgement of real files + correspondence'),
@@ -18,20 +18,20 @@ CLAIMED = {
          'proof in Coq (invariant by induction over operation lists) + K-api correspondence + reader judgement'),
  'C08': ('7 C08', 'Coq theorems C08_descr (code = written dtype, DIMENSION = per-row shape, ELEMENT-LIMIT bounds it, user values kept or rejected), C08_length (record length formula), C08_slicing; tie: decoded CHANNEL/FRAME objects and FDATA lengths of real files vs Model/Data.v channel_setup over casts, widths, user dimension/limit consistent or not, shared / aliased / orphan channels',
          'proof in Coq + reader judgement of real files + correspondence of the descriptor logic'),
- 'C09': ('7 C09', 'Coq theorems C09_order (records of a logical file = FILE-HEADER record, then explicit records only, then indirect records only) and C09_no_empty_sets over Model/Write.v lf_records; tie: K-api correspondence and order judgement of the decoded record sequence of implementation output (header fields, defining origin FILE-ID/FILE-SET-NUMBER, each set once, none empty, references defined before use)',
+ 'C09': ('7 C09', 'Coq theorems C09_order (records of a logical file = FILE-HEADER record, then explicit records only, then indirect records only), C09_no_empty_sets and C09_sets_once (in every reachable state the sets a logical file writes have pairwise distinct (type, name): registry invariant by induction over operations) over Model/Write.v lf_records; tie: K-api correspondence and order judgement of the decoded record sequence of implementation output (header fields, defining origin FILE-ID/FILE-SET-NUMBER, each set once, none empty, references defined before use)',
          'proof in Coq (structure of the record generator) + K-api correspondence + reader judgement'),
- 'C14': ('7 C14', 'Coq theorems C14_new_file_is_fresh and C14_mode_is_the_only_process_state over the cache-free model; decisive part: in-process histories (several files, reused names, 0.0/-0.0, 1/1.0/True, queries, rewrites) compared byte for byte with the model AND with a fresh subprocess writing the last specification alone',
-         'proof in Coq (cache-free denotation, process state = mode flag) + differential execution against a fresh subprocess (partial: rewriting one DLISFile with different data is known limitation D9)'),
+ 'C14': ('7 C14', 'Coq theorems C14_new_file_is_fresh and C14_mode_is_the_only_process_state over the cache-free model; decisive part: in-process histories (several files, reused names, 0.0/-0.0, 1/1.0/True, queries, rewrites) compared byte for byte with the model AND with a fresh subprocess writing the last specification alone; P; write; Q; write against P; Q; write in a fresh process (Q: assignments incl. other kinds of values, origin_reference changes); write; write of an unchanged specification; known finding D9 replayed',
+         'proof in Coq (cache-free denotation, process state = mode flag) + differential execution against a fresh subprocess (rewriting one DLISFile with different data: known finding D9)'),
  'C17': ('7 C17', 'Coq theorems C17_restored (any balanced sequence of enter/leave, nested, around any other operations, restores flag and stack: induction on the nesting), C17_only_contexts_change_mode, C17_names_enforced; tie: K-api correspondence of programs with contexts, flag after every program, decoded restrictions of files written in the mode, exception / decorator / nested forms on the real API',
          'proof in Coq (induction over balanced operation sequences) + K-api correspondence + reader judgement'),
  'C18': ('7 C18', 'Coq theorems C18_frames (per-frame numbering from 1) and C18_lf_records; the rejection clause is refuted in the model (C18_refuted_shared_default_sets) and recorded as known finding D12; tie: multi-logical-file programs (distinct / default / partially shared set names, interleaved calls): K-api correspondence and per-logical-file inventories of decoded implementation output',
          'proof in Coq + K-api correspondence + reader judgement (known finding D12 for shared set names)'),
- 'C20': ('7 C20', 'Coq theorem C20_reject: every rejected operation (add_* of every type at every rejection point, assignment, add_logical_file) leaves objects, registration lists, no-format data, data dictionary, headers and mode unchanged (only empty sets may appear); C20_copy_numbers; tie: K-api correspondence and, for every program with rejected calls, decoded inventory equality with the same history without them',
+ 'C20': ('7 C20', 'Coq theorem C20_reject: every rejected operation (add_* of every type at every rejection point, assignment, add_logical_file) leaves objects, registration lists, no-format data, data dictionary, headers and mode unchanged (only empty sets may appear: their registry position is known finding D22, witnessed in the model by C20_refuted_set_position); C20_copy_numbers; tie: K-api correspondence and, for every program with rejected calls, decoded inventory equality with the same history without them',
          'proof in Coq (case analysis of the step function) + K-api correspondence + differential histories'),
  'C11': ('7 C11', 'Coq theorems C11_sources (direct-slice path of a structured source = generic per-channel path), C11_window (loading from the window = loading from pre-sliced arrays), C11_chunks (for every input chunk size the rows produced are exactly rows [from, to) in frame channel order) over Model/Data.v; tie: the same data through inline / dict / structured array / HDF5 with permuted fields, extra datasets, dataset-name mapping, all windows and chunk sizes: byte-identical files, equal to the pre-sliced reference; K-api correspondence of the dict route',
          'proof in Coq (slice/zip algebra by induction) + differential execution across source kinds + K-api correspondence'),
- 'C12': ('7 C12', 'Coq theorems C12_physical (whatever the physical writer returns reads back), C12_explicit (whatever the set encoder returns decodes to the set), C12_rejects_ident/text/uvari/unorm (exact domains: over-long, non-ASCII, out-of-range are Err), C12_rejects_incomplete (a successful check_objects implies origin, channels, frames and registered frame channels), C12_rejects_bad_data (a successful frame set-up implies every data set present, supported dtype, at most 2-D); the composition over the API is checked per run: valid programs with ONE injected invalidity and data-level invalid inputs: the write raises, or the returned file is decoded by the strict reader and judged faithful (C05/C07/C09 predicates)',
-         'proof in Coq of the components (exact domains, preconditions of a successful write) + malformed-input stream judged by the verified reader (partial: no single end-to-end theorem)'),
+ 'C12': ('7 C12', 'Coq theorems C12_physical (whatever the physical writer returns reads back), C12_explicit (whatever the set encoder returns decodes to the set), C12_rejects_ident/text/uvari/unorm (exact domains: over-long, non-ASCII, out-of-range are Err), C12_rejects_incomplete (a successful check_objects implies origin, channels, frames and registered frame channels), C12_rejects_bad_data (a successful frame set-up implies every data set present, supported dtype, at most 2-D), C12_api_returned_file_is_well_formed (whatever the modelled write returns has the layout and is accepted record by record by the complete strict reader); faithfulness of the CONTENT is checked per run: valid programs with ONE injected invalidity and data-level invalid inputs: the write raises, or the returned file is decoded by the strict reader and judged faithful (C05/C07/C09 predicates)',
+         'proof in Coq of the components (exact domains, preconditions of a successful write) + malformed-input stream judged by the verified reader (well-formedness of every returned file is a theorem; content faithfulness per run)'),
  'C13': ('7 C13', 'Coq theorem C13_index over exact integer arithmetic (Model/Data.v index_stats): INDEX-MIN/MAX are the attained minimum/maximum; SPACING only for >= 2 rows and only when every difference equals it or lies within (1 - d/s)^2 < 1/1000 of the non-zero median; DIRECTION reflects the monotone sense; single row: neither; tie: decoded FRAME attributes of real files over all dtypes / patterns / windows / user values vs the model statistics; known finding D9 for repeated writes with other data',
          'proof in Coq (exact arithmetic; partial for inexact float data) + reader judgement of real files + K-api correspondence'),
  'C19': ('7 C19', 'PARTIAL. Coq theorem C19_no_caller_write over a hand-abstracted ownership/effect model (Model/Effects.v): effect sequences whose writes target library-allocated buffers leave caller buffers unchanged, and the abstracted pipelines are such sequences; numpy/h5py aliasing itself is below the model. Code-tied part: bit-exact before/after snapshots of every caller-owned buffer (root buffers of views, flags, dict identity, HDF5 hash) on every data-path case incl. failing writes',
@@ -40,7 +40,7 @@ CLAIMED = {
          'proof in Coq (lia over Z, per-code round trip and exact domain) + correspondence'),
  'C10': ('7 C10', 'Coq theorems C10_out_invisible / C10_file (buffer invariant by induction over the record list: final file, reported total, every flush snapshot is label ++ prefix of records), C10_in_invisible (chunking is the identity); tie: every output chunk size vrl..file+1 with flush-tap snapshots, input chunk sweep',
          'proof in Coq (state-machine invariant by induction) + exhaustive chunk-size sweep against the model'),
- 'C15': ('7 C15', 'Coq theorem C15_total: write_file succeeds for every accepted record length, every valid label and records of any body length (termination of the splitting loop within the supplied fuel is part of the proof); tie: segmenter run for every accepted length x body lengths, size-minimal real files',
+ 'C15': ('7 C15', 'Coq theorems C15_total: write_file succeeds for every accepted record length, every valid label and records of any body length (termination of the splitting loop within the supplied fuel is part of the proof), and C15_api_total: once the modelled write has produced the records, no size can make it fail; tie: segmenter run for every accepted length x body lengths, size-minimal real files',
          'proof in Coq (totality by induction on the remaining length) + correspondence'),
  'C16': ('7 C16', 'Coq theorems C16_body (dec_nofmt (obname ++ payload) = (obname, payload)), C16_kept, C16_file (order and content through the physical layer, from C02); tie: type-1 records read back from real files vs model nofmt_body',
          'proof in Coq (decoder inversion + C02 round trip) + reader judgement of real files'),
